@@ -3,7 +3,7 @@
    stream that was compressed into the emitted IDAT decodes, under the specification, to the picture the input means. *)
 From OxiVerif Require Import Base.Common Spec.Filter Spec.Adam7 Spec.Sem Spec.Decode Model.Types Model.Options Model.ScanLines Model.Filters
   Model.Evaluate Model.Reductions Model.Optimize
-  Proofs.Bridge Proofs.LiftColor Proofs.ReductionInv Proofs.PipelineProofs Proofs.PipelineLossless Proofs.FilterImage Proofs.FilterStream.
+  Proofs.Bridge Proofs.LiftColor Proofs.ReductionInv Proofs.PipelineProofs Proofs.PipelineLossless Proofs.FilterImage Proofs.FilterStream Proofs.LiftAlpha Proofs.AlphaStream.
 Local Open Scope Z_scope.
 
 Section Prov.
@@ -14,33 +14,49 @@ Definition cand_ok (c : candidate) : Prop :=
   exists alpha filtered, filter_image (e_brute e (c_image c) alpha) (c_image c) (c_filter c) alpha = Ok filtered /\
     (if c_compressed c then exists d, c_cdata c = z_deflate e d filtered else c_cdata c = filtered).
 
+(* the same, where the alpha optimisation can have been used only if [allowed] *)
+Definition cand_ok_in (allowed : bool) (c : candidate) : Prop :=
+  exists alpha filtered, (alpha = true -> allowed = true) /\
+    filter_image (e_brute e (c_image c) alpha) (c_image c) (c_filter c) alpha = Ok filtered /\
+    (if c_compressed c then exists d, c_cdata c = z_deflate e d filtered else c_cdata c = filtered).
+
 Definition cand_ok_na (c : candidate) : Prop :=
   exists filtered, filter_image (e_brute e (c_image c) false) (c_image c) (c_filter c) false = Ok filtered /\
     (if c_compressed c then exists d, c_cdata c = z_deflate e d filtered else c_cdata c = filtered).
 
-Lemma run_trial_ok ev d fr nth img f out :
-  run_trial e ev d false fr nth img f = Ok out ->
+Lemma cand_ok_in_false c : cand_ok_in false c <-> cand_ok_na c.
+Proof.
+  split.
+  - intros (alpha & filtered & Hal & Hf & Hd). destruct alpha; [specialize (Hal eq_refl); discriminate|]. exists filtered. split; assumption.
+  - intros (filtered & Hf & Hd). exists false, filtered. split; [discriminate|split; assumption].
+Qed.
+
+Lemma cand_ok_in_mono a c : cand_ok_in false c -> cand_ok_in a c.
+Proof. intros (alpha & filtered & Hal & Hf & Hd). exists alpha, filtered. split; [intros Ht; specialize (Hal Ht); discriminate|split; assumption]. Qed.
+
+Lemma run_trial_ok ev d al fr nth img f out :
+  run_trial e ev d al fr nth img f = Ok out ->
   tNth (to_trial out) = Z.of_nat nth /\ tFilter (to_trial out) = filter_code f /\
   tSkip (to_trial out) = dl e (STrial ev nth (filter_code f)) /\
-  (tSkip (to_trial out) = false -> cand_ok_na (to_cand out)).
+  (tSkip (to_trial out) = false -> cand_ok_in al (to_cand out)).
 Proof.
   unfold run_trial. intros H. destruct (dl e (STrial ev nth (filter_code f))) eqn:Edl.
   - injection H as <-. cbn. repeat split; auto. discriminate.
-  - destruct (filter_image (e_brute e img false) img f false) as [filtered|?|?] eqn:Ef; cbn [bind] in H; try discriminate.
+  - destruct (filter_image (e_brute e img al) img f al) as [filtered|?|?] eqn:Ef; cbn [bind] in H; try discriminate.
     injection H as <-. cbn [to_trial to_cand tNth tFilter tSkip]. repeat split; auto. intros _.
-    exists filtered. cbn [c_image c_filter c_compressed c_cdata]. split; [exact Ef|]. destruct fr; eauto.
+    exists al, filtered. cbn [c_image c_filter c_compressed c_cdata]. split; [auto|]. split; [exact Ef|]. destruct fr; eauto.
 Qed.
 
-Lemma evaluator_trials_ok ev fs d fr images outs :
-  evaluator_trials e ev fs d false fr images = Ok outs ->
+Lemma evaluator_trials_ok ev fs d al fr images outs :
+  evaluator_trials e ev fs d al fr images = Ok outs ->
   forall out, In out outs ->
     tSkip (to_trial out) = dl e (STrial ev (Z.to_nat (tNth (to_trial out))) (tFilter (to_trial out))) /\
-    (tSkip (to_trial out) = false -> cand_ok_na (to_cand out)).
+    (tSkip (to_trial out) = false -> cand_ok_in al (to_cand out)).
 Proof.
   unfold evaluator_trials. intros H out Hin.
   pose proof (all_res_In _ _ H out Hin) as Hl. apply in_flat_map in Hl.
   destruct Hl as [[n img] [Hni Hm]]. apply in_map_iff in Hm. destruct Hm as [f [Hf _]]. cbn [fst snd] in Hf.
-  destruct (run_trial_ok _ _ _ _ _ _ _ Hf) as (E1 & E2 & E3 & E4). rewrite E1, E2, Nat2Z.id. split; auto.
+  destruct (run_trial_ok _ _ _ _ _ _ _ _ Hf) as (E1 & E2 & E3 & E4). rewrite E1, E2, Nat2Z.id. split; auto.
 Qed.
 
 Lemma best_of_go_eligible init trials : forall best m, best_of_go init trials best = Some m ->
@@ -54,9 +70,9 @@ Proof.
   - injection H as <-. left. split; [left; reflexivity|exact Ee].
 Qed.
 
-Lemma evaluator_best_ok ev fs d fr images outs init c :
-  evaluator_trials e ev fs d false fr images = Ok outs ->
-  evaluator_best outs init = Some c -> cand_ok_na c.
+Lemma evaluator_best_ok ev fs d al fr images outs init c :
+  evaluator_trials e ev fs d al fr images = Ok outs ->
+  evaluator_best outs init = Some c -> cand_ok_in al c.
 Proof.
   intros Ht Hb. unfold evaluator_best in Hb.
   destruct (best_of init (map to_trial outs)) as [m|] eqn:Em; [|discriminate].
@@ -64,8 +80,8 @@ Proof.
   apply find_some in Ef. destruct Ef as [Hin Hmatch]. apply andb_true_iff in Hmatch. destruct Hmatch as [M1 M2]. apply Z.eqb_eq in M1, M2.
   unfold best_of in Em. apply best_of_go_eligible in Em. destruct Em as [[Hm He]|]; [|discriminate].
   apply in_map_iff in Hm. destruct Hm as [o' [<- Hin']].
-  destruct (evaluator_trials_ok _ _ _ _ _ _ Ht o' Hin') as [S' _].
-  destruct (evaluator_trials_ok _ _ _ _ _ _ Ht o Hin) as [S C].
+  destruct (evaluator_trials_ok _ _ _ _ _ _ _ Ht o' Hin') as [S' _].
+  destruct (evaluator_trials_ok _ _ _ _ _ _ _ Ht o Hin) as [S C].
   apply C. rewrite S, M1, M2, <- S'. unfold eligible in He. apply andb_true_iff in He. destruct He as [He _]. apply negb_true_iff in He. exact He.
 Qed.
 
@@ -73,21 +89,20 @@ Lemma deflate_capped_ok d x mx y : deflate_capped e d x mx = Ok y -> y = z_defla
 Proof. unfold deflate_capped. destruct mx as [m|]; [destruct (m <? lenZ (z_deflate e d x))|]; intros H; try discriminate; injection H as <-; reflexivity. Qed.
 
 Lemma perform_trials_ok o img max_size eval_result efs ed c :
-  optimize_alpha o = false ->
-  (forall p, eval_result = Some p -> cand_ok_na p) ->
-  perform_trials e o img max_size eval_result efs ed = Ok (Some c) -> cand_ok_na c.
+  (forall p, eval_result = Some p -> cand_ok_in (optimize_alpha o) p) ->
+  perform_trials e o img max_size eval_result efs ed = Ok (Some c) -> cand_ok_in (optimize_alpha o) c.
 Proof.
-  intros Ha Hprev H. unfold perform_trials in H. rewrite Ha in H.
+  intros Hprev H. unfold perform_trials in H.
   destruct (fast_evaluation o && _) eqn:Efast.
   - match type of H with bind ?X _ = _ => destruct X as [er|er1|er2] eqn:Eer end; cbn [bind] in H; try discriminate.
-    assert (Her : forall p, er = Some p -> cand_ok_na p).
+    assert (Her : forall p, er = Some p -> cand_ok_in (optimize_alpha o) p).
     { intros p ->.
       destruct (match eval_result with Some _ => filters_difference (filter o) efs | None => filter o end) eqn:Efs.
       - injection Eer as Eer. apply Hprev. exact Eer.
-      - destruct (evaluator_trials e 1 (r :: l) ed false (deflater_eqb (deflate o) ed) [img]) as [outs|?|?] eqn:Eo;
+      - destruct (evaluator_trials e 1 (r :: l) ed (optimize_alpha o) (deflater_eqb (deflate o) ed) [img]) as [outs|?|?] eqn:Eo;
           cbn [bind] in Eer; try discriminate.
         destruct (evaluator_best outs _) as [r0|] eqn:Eb.
-        + pose proof (evaluator_best_ok _ _ _ _ _ _ _ _ Eo Eb) as Hr0. injection Eer as Eer.
+        + pose proof (evaluator_best_ok _ _ _ _ _ _ _ _ _ Eo Eb) as Hr0. injection Eer as Eer.
           match type of Eer with (if ?b then _ else _) = _ => destruct b end.
           * injection Eer as <-. exact Hr0.
           * apply Hprev. exact Eer.
@@ -96,12 +111,12 @@ Proof.
     destruct (c_compressed r) eqn:Ec.
     + injection H as <-. exact Her.
     + destruct (deflate_capped e (deflate o) (c_cdata r) max_size) as [idat|?|?] eqn:Ed; injection H as <-; [|exact Her|exact Her].
-      destruct Her as (filtered & Ef & Hd). rewrite Ec in Hd. exists filtered. cbn [c_image c_filter c_compressed c_cdata]. split; [exact Ef|].
+      destruct Her as (al & filtered & Hal & Ef & Hd). rewrite Ec in Hd. exists al, filtered. cbn [c_image c_filter c_compressed c_cdata]. split; [exact Hal|]. split; [exact Ef|].
       exists (deflate o). rewrite <- Hd. apply deflate_capped_ok in Ed. exact Ed.
   - match type of H with bind ?X _ = _ => destruct X as [outs|oe1|oe2] eqn:Eo end; cbn [bind] in H; try discriminate.
     injection H as H.
     destruct (evaluator_best outs max_size) as [new|] eqn:Eb.
-    + pose proof (evaluator_best_ok _ _ _ _ _ _ _ _ Eo Eb) as Hnew.
+    + pose proof (evaluator_best_ok _ _ _ _ _ _ _ _ _ Eo Eb) as Hnew.
       destruct eval_result as [prev|].
       * match type of H with (if ?b then _ else _) = _ => destruct b end; injection H as <-; [apply Hprev; reflexivity|exact Hnew].
       * injection H as <-. exact Hnew.
@@ -109,17 +124,16 @@ Proof.
       destruct (c_compressed prev); [|discriminate]. injection H as <-. apply Hprev. reflexivity.
 Qed.
 
-Theorem optimize_raw_provenance o img max_size c :
-  optimize_alpha o = false ->
+Theorem optimize_raw_provenance_gen o img max_size c :
   optimize_raw e o img max_size = Ok (Some c) ->
-  c_compressed c = true /\ cand_ok_na c.
+  c_compressed c = true /\ cand_ok_in (optimize_alpha o) c.
 Proof.
-  intros Ha H. unfold optimize_raw in H.
+  intros H. unfold optimize_raw in H.
   destruct (perform_reductions e o img) as [[baseline evs]|?|?]; cbn [bind] in H; try discriminate.
   match type of H with bind ?X _ = _ => destruct X as [outs|oe1|oe2] eqn:Eo end; cbn [bind] in H; try discriminate.
   set (eval_result := evaluator_best outs None) in *.
-  assert (Hev : forall p, eval_result = Some p -> cand_ok_na p).
-  { intros p Hp. eapply evaluator_best_ok; eauto. }
+  assert (Hev : forall p, eval_result = Some p -> cand_ok_in (optimize_alpha o) p).
+  { intros p Hp. apply cand_ok_in_mono. eapply evaluator_best_ok; eauto. }
   match type of H with bind ?X _ = _ => destruct X as [result|re1|re2] eqn:Er end; cbn [bind] in H; try discriminate.
   destruct result as [r|]; [|discriminate].
   destruct (c_compressed r) eqn:Ec; cbn [andb] in H; [|discriminate].
@@ -128,6 +142,15 @@ Proof.
   match type of Er with (if ?b then _ else _) = _ => destruct b end.
   - eapply perform_trials_ok; eauto.
   - injection Er as Er. apply Hev. exact Er.
+Qed.
+
+Theorem optimize_raw_provenance o img max_size c :
+  optimize_alpha o = false ->
+  optimize_raw e o img max_size = Ok (Some c) ->
+  c_compressed c = true /\ cand_ok_na c.
+Proof.
+  intros Ha H. destruct (optimize_raw_provenance_gen o img max_size c H) as [Hc Hok]. split; [exact Hc|].
+  rewrite Ha in Hok. apply cand_ok_in_false. exact Hok.
 Qed.
 End Prov.
 
@@ -159,4 +182,31 @@ Proof.
   destruct (optimize_raw_lossless_partial L e o img max_size c pic Ha Hs Hm H) as [Hwf Hsem].
   destruct (optimize_raw_provenance e o img max_size c Ha H) as [Hc (filtered & Hf & Hd)]. rewrite Hc in Hd. destruct Hd as [d Hd].
   exists d, filtered. split; [exact Hd|]. eapply filter_image_stream; eauto.
+Qed.
+
+(* C03 down to the IDAT content: with the alpha optimisation allowed, the stream that was compressed into the emitted IDAT decodes,
+   under the specification, to a picture that is alpha-equivalent to the input's *)
+Lemma filter_image_alpha_noalpha brute img f : has_alpha (ctype (hdr img)) = false ->
+  filter_image brute img f true = filter_image brute img f false.
+Proof. intros H. unfold filter_image, filter_image_rows. rewrite H. reflexivity. Qed.
+
+Theorem emitted_stream_alpha_partial (L : leaves) e o img max_size c pic :
+  scale_16 o = false -> ameans pic img ->
+  optimize_raw e o img max_size = Ok (Some c) ->
+  exists d stream pic', c_cdata c = z_deflate e d stream /\
+    spec_decode_stream (width (hdr (c_image c))) (height (hdr (c_image c))) (spec_color_of (ctype (hdr (c_image c))))
+                       (depth (hdr (c_image c))) (interlaced (hdr (c_image c))) stream = Some pic' /\
+    pic_aequiv pic pic'.
+Proof.
+  intros Hs Hm H.
+  destruct (optimize_raw_alpha_partial L e o img max_size c pic Hs Hm H) as (pic1 & [Hwf Hsem] & A1).
+  destruct (optimize_raw_provenance_gen e o img max_size c H) as [Hc (al & filtered & _ & Hf & Hd)]. rewrite Hc in Hd. destruct Hd as [d Hd].
+  exists d, filtered.
+  destruct al.
+  - destruct (has_alpha (ctype (hdr (c_image c)))) eqn:Eha.
+    + destruct (filter_image_alpha_decodes _ _ _ _ _ Hwf Hsem Eha Hf) as (pic2 & E2 & A2).
+      exists pic2. split; [exact Hd|]. split; [exact E2|]. eapply pic_aequiv_trans; eauto.
+    + rewrite filter_image_alpha_noalpha in Hf by exact Eha.
+      exists pic1. split; [exact Hd|]. split; [eapply filter_image_decodes; eauto|exact A1].
+  - exists pic1. split; [exact Hd|]. split; [eapply filter_image_decodes; eauto|exact A1].
 Qed.
